@@ -37,18 +37,20 @@ from . import rustscan as rs
 from . import quoteinst
 from .extract import ExtractError, add_markers, strip_markers, find_blocks, find_fns, apply_edits, attributed_extent
 
-SCHEMA = quoteinst.schema_world('WorldS', [('ArchA', 7, [('CompX', 0), ('CompY', 1)]), ('ArchB', 8, [('CompX', 0), ('CompZ', 1)])])
+# main schema:  ecs_world! { ecs_name!(WorldS); #[archetype_id(7)] ecs_archetype!(ArchA, CompX, CompY); #[archetype_id(3)] ecs_archetype!(ArchB, CompX, CompZ); }
+# (ids deliberately NOT ascending in declaration order and not starting at 0: position, id and id order all differ)
+SCHEMA = quoteinst.schema_world('WorldS', [('ArchA', 7, [('CompX', 0), ('CompY', 1)]), ('ArchB', 3, [('CompX', 0), ('CompZ', 1)])])
 # further schemas (thorough tier): the contracts are written in the generator's template notation, so they instantiate for any shape.
 # The ids are what DataWorld::new computes for the declarations (explicit id, else previous + 1, else 0: verified under C15).
 #   S1:  ecs_world! { ecs_name!(WorldU); ecs_archetype!(ArchP, CompX); }
-#   S3:  ecs_world! { ecs_name!(WorldT); ecs_archetype!(ArchP, CompX, CompY, CompZ); #[archetype_id(200)] ecs_archetype!(ArchQ, CompZ, CompX, CompY);
+#   S3:  ecs_world! { ecs_name!(WorldT); #[archetype_id(200)] ecs_archetype!(ArchP, CompX, CompY, CompZ); #[archetype_id(2)] ecs_archetype!(ArchQ, CompZ, CompX, CompY);
 #                     ecs_archetype!(ArchR, CompY, #[component_id(9)] CompZ, CompX); }
 SCHEMAS = {
     2: SCHEMA,
     1: quoteinst.schema_world('WorldU', [('ArchP', 0, [('CompX', 0)])]),
-    3: quoteinst.schema_world('WorldT', [('ArchP', 0, [('CompX', 0), ('CompY', 1), ('CompZ', 2)]),
-                                         ('ArchQ', 200, [('CompZ', 0), ('CompX', 1), ('CompY', 2)]),
-                                         ('ArchR', 201, [('CompY', 0), ('CompZ', 9), ('CompX', 10)])]),
+    3: quoteinst.schema_world('WorldT', [('ArchP', 200, [('CompX', 0), ('CompY', 1), ('CompZ', 2)]),
+                                         ('ArchQ', 2, [('CompZ', 0), ('CompX', 1), ('CompY', 2)]),
+                                         ('ArchR', 3, [('CompY', 0), ('CompZ', 9), ('CompX', 10)])]),
 }
 
 
